@@ -2,6 +2,7 @@
 (Model/Reader.v parse_file) of every file the implementation writes."""
 import phys
 
+EXTRA_COQ_FILES = ('GenFacts/ConstantsOK.v',)
 RULE = ('S1: every (capacity, body length) with capacity even 12..64 and length 0..4*cap+14, plus lengths k*cap+d (|d|<=13, k<=3) '
         'for capacities 100, 1000, 8184, 16376; S2: seeded random synthetic record lists written through DLISWriter under '
         'accepted record lengths 20..16384 (thorough: every accepted even length once); S3: real DLISFile writes. '
